@@ -182,6 +182,7 @@ def check(ctx, case):
         nontrivial = (case.get('ntok', 9) >= 5 and not empty) or kind in ('syntax',)
     else:
         nontrivial = kind == 'syntax'
+    classes.append('prior:%d' % len(case.get('prior') or []))
     ctx.note({'x': case['xml'], 'e': expr, 'c': case['ctx'], 'l': case.get('ctxlist')}, nontrivial, classes,
              sample_text={'expr': expr, 'xml': case['xml'][:300], 'ctx': prep.ctx.key, 'ref': status})
     if status == 'syntax':
@@ -219,9 +220,36 @@ def check(ctx, case):
         return {'what': 'error-evaluating', 'expr': expr, 'err': r.gets('g.errmsg'), 'errkind': r.gets('g.err'), 'feats': sorted(feats)}
     d = compare_value(ref, r)
     if d:
+        trig = triggers(case)
+        if d[0] == 'nodeset' and _only_namespace_node_owner_differs(prep, d[1], d[2]):
+            trig.append('nsnode-shared')
         return {'what': 'value:' + d[0], 'expr': expr, 'expected': _j(d[1]), 'got': _j(d[2]), 'ctx': prep.ctx.key, 'pos': [prep.pos, prep.size],
-                'feats': sorted(feats), 'form': case.get('docform'), 'trig': triggers(case)}
+                'feats': sorted(feats), 'form': case.get('docform'), 'trig': trig}
     return None
+
+
+def _only_namespace_node_owner_differs(prep, expected, got):
+    """F-C02-namespace-axis, native form: the namespace nodes of an element are the xmlns attributes of the declaring ancestors (or self),
+    shared by all elements in their scope.  True iff the two node lists have the same nodes other than namespace nodes in the same order,
+    and every namespace node on either side has a counterpart on the other with the same prefix and namespace name whose owner is the
+    expected owner or one of its ancestors (the relative order of namespace nodes is implementation-dependent, XPath 5.4)."""
+    expected, got = list(expected), list(got)
+    if not any('/ns:' in k for k in expected):
+        return False
+    if [k for k in expected if '/ns:' not in k] != [k for k in got if '/ns:' not in k]:
+        return False
+    bykey = {n.key: n for n in prep.doc.nodes(attrs=True, ns=True)}
+
+    def counterpart(e, g):
+        eo, ep = e.rsplit('/ns:', 1)
+        go, gp = g.rsplit('/ns:', 1)
+        if ep != gp or not (eo == go or eo.startswith(go + '/')):
+            return False
+        en, gn = bykey.get(e), bykey.get(g)
+        return en is not None and gn is not None and en.value == gn.value
+    ens = [k for k in expected if '/ns:' in k]
+    gns = [k for k in got if '/ns:' in k]
+    return bool(gns) and all(any(counterpart(e, g) for g in gns) for e in ens) and all(any(counterpart(e, g) for e in ens) for g in gns)
 
 
 def triggers(case):
